@@ -101,10 +101,23 @@ pub open spec fn params_ok(l: &LookupId, ps: Seq<ast::Param>, in_path: ast::Path
     forall|i: int| 0 <= i < ps.len() ==> allowed_in(l, (#[trigger] ps[i]).ty, in_path, env, false)
 }
 pub uninterp spec fn spec_lower_ident(i: ast::Ident) -> IdentBuf;
+// return types whose success value is unit: (), Result<(), E>, Option<()> -- the shapes for which the HIR records SuccessType::Write
+pub open spec fn unit_success(rt: Option<ast::TypeName>) -> bool {
+    match rt {
+        None => true,
+        Some(ast::TypeName::Unit) => true,
+        Some(ast::TypeName::Result(ok, _, _)) => *ok is Unit,
+        Some(ast::TypeName::Option(v, _)) => *v is Unit,
+        Some(_) => false,
+    }
+}
 pub open spec fn method_ok(l: &LookupId, m: &ast::Method, in_path: ast::Path, env: Env) -> bool {
     &&& params_ok(l, input_params(m), in_path, env)
     &&& (m.self_param is Some ==> self_ok(l, m.self_param.unwrap(), in_path, env))
     &&& return_ok(m.return_type, in_path, env)
+    // C01 / C05: the macro compiles the trailing DiplomatWrite as a real parameter of the extern "C" function; the HIR (what every backend declares the
+    // function from) records it only as SuccessType::Write, so a write method whose success value is not unit would lose the parameter on the foreign side
+    &&& (spec_takes_write(m) ==> unit_success(m.return_type))
 }
 // a DiplomatWrite anywhere but in last position is never an accepted input type
 pub proof fn lemma_write_only_last(l: &LookupId, m: &ast::Method, in_path: ast::Path, env: Env, i: int)
@@ -283,6 +296,8 @@ LM_CONTRACT = f"""        ensures {CANARY}
             res.is_ok() ==> method_ok(&old(self).lookup_id, method, *in_path, *old(self).env),
             !method_ok(&old(self).lookup_id, method, *in_path, *old(self).env) ==> res.is_err(),
             // the trailing DiplomatWrite selects the Write success type (and is not an ordinary parameter)
+            // a write parameter is never silently dropped: the HIR method of a write method has the Write success type
+            res.is_ok() && spec_takes_write(method) ==> res.unwrap().output.success_spec() == SuccessType::Write,
             res.is_ok() ==> return_shape(method.return_type, spec_takes_write(method), res.unwrap().output)
                 && res.unwrap().params@.len() == input_params(method).len()
                 && (res.unwrap().param_self is Some) == (method.self_param is Some),
